@@ -6,6 +6,8 @@ import AkVerif.Lemmas.LLFuel
 import AkVerif.Lemmas.LLLeast
 import AkVerif.Lemmas.LLLl1Final
 import AkVerif.Lemmas.LLTmpl
+import AkVerif.Lemmas.LLUniqueTop
+import AkVerif.Lemmas.LLLl1Check
 /-!
 # C02 — conflict-free (LL(1)) grammars are parsed exactly
 
@@ -159,7 +161,10 @@ theorem conflict_report_exact (inp : CtorIn) (P : Parser) (hP : construct inp = 
 /-- **A grammar that is LL(1) as written is reported as not ambiguous** (both `smart_factorization`
 values).  "LL(1) as written": for every symbol of the *user's* productions the predict sets of its
 alternatives are pairwise disjoint, the sets being computed by the model's nullable / FIRST / FOLLOW
-functions on the user's dictionary — proved to be the least sets (`sets_exact`, `LL.nullables_least`).
+functions on the user's dictionary (`hNU`, `hFU`, `hWU`: the same three functions the constructor applies to the
+factorised dictionary; that they return the least sets of their dictionary is `LL.nullables_least`,
+`LL.firstSets_exact`, `LL.followSets_exact` — `sets_exact` above is their instance for the factorised one).
+All hypotheses are met by a concrete grammar with a nullable symbol and a unit production: `ll1_as_written_nonvacuous`.
 Hypotheses: the start symbol is a key of `productions`; every key has at least one alternative
 (`hne`; without it the statement is false, see the example below).
 Ingredients: exactness of the computed sets for both dictionaries; FIRST/FOLLOW/nullable of the
@@ -179,6 +184,77 @@ theorem ll1_as_written_unambiguous (inp : CtorIn) (P : Parser) (hP : construct i
         rules.Pairwise (PredDisjoint P.terminals NU FU WU X)) :
     isAmbiguous P.table = false :=
   ll1_unambiguous hP hNU hFU hWU hne hstart hLL1
+
+/-! Non-vacuity of `ll1_as_written_unambiguous`: `S → X t Y ; X → A ; A → a | ε ; Y → A c | t d` (a unit
+production over a nullable symbol, FOLLOW needed to tell the alternatives of `A` apart) meets **every**
+hypothesis, for both `smart_factorization` values: the constructor accepts it, the three set functions succeed on
+the user's dictionary, every key has an alternative, the predict sets are pairwise disjoint (Boolean checker
+`LL.ll1Check`, sound by `LL.ll1Check_sound`; evaluated by the kernel). -/
+def ll1Inp (smart : Bool) : CtorIn :=
+  { groups := ["SPACE".toList, "a".toList, "c".toList, "t".toList, "d".toList], syn := [], kw := [], skip := none,
+    start := "S".toList,
+    prods := [("S".toList, [["X".toList, "t".toList, "Y".toList]]),
+              ("X".toList, [["A".toList]]),
+              ("A".toList, [["a".toList], []]),
+              ("Y".toList, [["A".toList, "c".toList], ["t".toList, "d".toList]])],
+    smart := smart }
+
+theorem ll1_as_written_nonvacuous (smart : Bool) :
+    ∃ P NU FU WU, construct (ll1Inp smart) = .ok P ∧
+      nullables P.userProds = .ok NU ∧ firstSets P.terminals NU P.userProds = .ok FU ∧
+      followSets P.terminals NU FU P.userProds P.start endSym = .ok WU ∧
+      (∀ X rules, (X, rules) ∈ P.userProds → rules ≠ []) ∧
+      (ll1Inp smart).start ∈ (ll1Inp smart).prods.map (·.1) ∧
+      (∀ X rules, (X, rules) ∈ P.userProds → rules.Pairwise (PredDisjoint P.terminals NU FU WU X)) ∧
+      isAmbiguous P.table = false := by
+  have h : ∀ b : Bool, (match construct (ll1Inp b) with
+      | .ok P => ll1Check P && decide ((ll1Inp b).start ∈ (ll1Inp b).prods.map (·.1))
+      | .error _ => false) = true := by decide +kernel
+  have hs := h smart
+  cases hc : construct (ll1Inp smart) with
+  | error e => rw [hc] at hs; simp at hs
+  | ok P =>
+    rw [hc] at hs
+    simp only [Bool.and_eq_true, decide_eq_true_eq] at hs
+    obtain ⟨NU, FU, WU, h1, h2, h3, h4, h5⟩ := ll1Check_sound hs.1
+    exact ⟨P, NU, FU, WU, rfl, h1, h2, h3, h4, hs.2, h5,
+      ll1_as_written_unambiguous _ P hc NU FU WU h1 h2 h3 h4 hs.2 h5⟩
+
+/-- **The LL(1) verdict makes the table deterministic**: when `is_ambiguous()` is False, for every symbol and
+every next token the table selects **exactly one** production (or none) — the roll-back branch of `parse` has
+no second alternative to turn to. -/
+theorem table_deterministic (inp : CtorIn) (P : Parser) (_hP : construct inp = .ok P)
+    (hamb : isAmbiguous P.table = false) (X t : Sym) (alts : List (List Sym))
+    (h : P.cfg.table X t = some alts) : alts.length = 1 :=
+  table_det hamb X t alts h
+
+/-- **A single derivation tree**: when `is_ambiguous()` is False, a token list has **at most one** derivation
+tree of the grammar *the user wrote* rooted at the start symbol (`LL.Derives`: every inner node with the names of
+its children is one of the user's productions).  From: the conflict-free table is the LL(1) table of closed sets
+(`sets_closed`), classical LL(1) uniqueness on the factorised dictionary (`LL.tree_unique`), and the fact that a
+user tree is recovered from its factorised image by splicing the helper nodes (`LL.gtree_of_derives_unf`). -/
+theorem unique_derivation (inp : CtorIn) (P : Parser) (hP : construct inp = .ok P)
+    (hamb : isAmbiguous P.table = false) (t1 t2 : Tree Sym)
+    (h1 : Derives P.terminals P.userProds t1) (h2 : Derives P.terminals P.userProds t2)
+    (hn1 : t1.name = P.start) (hn2 : t2.name = P.start) (hy : t1.yield = t2.yield) : t1 = t2 := by
+  have hB := construct_built hP
+  obtain ⟨hD, hnd⟩ := factRelD_of_built hB
+  exact unique_user_tree hB hD hnd hamb t1 t2 h1 h2 hn1 hn2 hy
+
+/-- **The LL(1) verdict implies a single parse, and `parse` finds it**: when `is_ambiguous()` is False, the tree
+returned by the (backtracking) parse loop is *the* derivation tree of the token list — every derivation tree of
+the user's grammar for these tokens equals it.  So no order of trying alternatives, and no predictive parser
+driven by the same table, could return anything else. -/
+theorem parse_unique (inp : CtorIn) (P : Parser) (hP : construct inp = .ok P)
+    (hstart : inp.start ∈ inp.prods.map (·.1))
+    (hamb : isAmbiguous P.table = false) (raw : List (List Char × List Char))
+    (hEnd : ∀ tok ∈ (P.tokens raw).dropLast, tok.name ≠ endSym)
+    (fuel : Nat) (t : Tree Sym) (h : P.parse raw fuel = .ok t)
+    (u : Tree Sym) (hu : Derives P.terminals P.userProds u) (hun : u.name = P.start)
+    (huy : u.yield = (P.tokens raw).dropLast) : u = t := by
+  have hB := construct_built hP
+  obtain ⟨hD, hnd⟩ := factRelD_of_built hB
+  exact parse_is_the_tree hB hD hnd hamb (start_user_of_built hB hstart) raw hEnd fuel t h u hu hun huy
 
 /-! `hne` cannot be dropped — and the real parser behaves like the model: in
 `E → X b ; X → Z a | Z a b ; Z → (no alternatives)` both alternatives of `X` have an empty predict set
